@@ -15,7 +15,7 @@ import shutil
 import subprocess
 import tempfile
 
-from vlib import build_harness, build_cli, log, ToolError, translate, tlc, QT5_METATYPES
+from vlib import build_harness, build_cli, log, ToolError, translate, tlc, tlc_must_pass, QT5_METATYPES
 from vlib import catalog as C
 
 RULE = ("case = document (set of catalogue bindings on a fixed object skeleton); all 42 singles, all unordered pairs, seeded triples; "
@@ -88,6 +88,53 @@ def cli_error_half(chk, qmluic, names, r):
         shutil.rmtree(d, ignore_errors=True)
 
 
+POOL_TEXT = [  # the 14 declaration shapes of GenBindMap.tla, in the same order
+    'palette.window: "red"', 'palette.active.window: "red"', 'palette { window: "red" }', 'palette { active.window: "red" }', 'palette.active { window: "red" }',
+    'palette { active { window: "red" } }', 'palette.active { base: "blue" }', 'palette.active.base: "blue"', 'palette.active: "red"',
+    'palette { window: "red"; window: "green" }', 'palette.disabled { }', 'text: "t"', 'palette { active: "red" }',
+    'palette { base: "tan"; active { base: "blue" } active.text: "navy" }']
+LEAF_ON_GROUP = {9, 13}      # `active` bound to a value: a type error even where it is not a duplicate
+
+
+def binding_map_leg(chk):
+    """G: every sequence of 1..3 declaration shapes (BindMap.tla): duplicate <=> 'duplicated binding' diagnosed; otherwise the bindings the
+    translator holds for the object (observation hook) are exactly the values of the model's map -- nothing lost, nothing invented"""
+    g = tlc("GenBindMap", workers=2, timeout=900, coverage=False)
+    tlc_must_pass(g, "GenBindMap (NothingLost, WellShaped on every declaration sequence)")
+    chk.add_tlc(g)
+    cases = g.printed("BIND")
+    if len(cases) < 2900:
+        raise ToolError("GenBindMap produced %d sequences" % len(cases))
+    reqs = []
+    for n, c in enumerate(cases):
+        body = "\n".join("    " + POOL_TEXT[j - 1] for j in c["decls"])
+        reqs.append({"id": n, "src": "import qmluic.QtWidgets\nQWidget {\n  QLabel {\n    id: lab\n%s\n  }\n}\n" % body, "type_name": "Doc", "modes": ["generate"], "ir": True})
+    res = translate(reqs, metatypes=[QT5_METATYPES])
+    for q, c in zip(reqs, cases):
+        run_ = res[q["id"]]["generate"]
+        chk.count({"bindmap": c["decls"]}, nontrivial=len(c["decls"]) >= 2)
+        if run_.get("panic") or run_.get("timeout") or run_.get("crash"):
+            continue
+        msgs = [d["msg"] for d in run_.get("diags", [])]
+        dup = any("duplicated binding" in m for m in msgs)
+        if dup != c["dup"]:
+            chk.violation("binding map: the model %s a duplicate, the translator %s (%s)" % ("finds" if c["dup"] else "does not find", "reports one" if dup else "reports %s" % (msgs[:2] or "nothing"),
+                          "; ".join(POOL_TEXT[j - 1] for j in c["decls"])), {"qml": q["src"], "diags": run_.get("diags"), "model": c})
+            continue
+        if c["dup"] or any(j in LEAF_ON_GROUP for j in c["decls"]):
+            if not run_.get("has_error"):
+                chk.violation("binding map: a document with a duplicated or ill-placed binding is accepted", {"qml": q["src"], "model": c})
+            continue
+        if run_.get("has_error"):
+            chk.violation("binding map: a document without duplicates is rejected: %s" % msgs[:2], {"qml": q["src"], "diags": run_.get("diags"), "model": c})
+            continue
+        held = sorted(tuple(o["path"]) for o in run_.get("ir", []) if o["obj"] == "lab" and o["kind"] == "binding")
+        want = sorted(tuple(p) for p in c["leaves"])
+        if held != want:
+            chk.violation("binding map: the translator holds %s for the object, the declarations bind %s" % (held, want), {"qml": q["src"], "model": c, "held": held})
+    chk.cov["binding_map_sequences"] = len(cases)
+
+
 def run(chk):
     build_harness()
     qmluic = build_cli()
@@ -152,4 +199,5 @@ def run(chk):
         cli_error_half(chk, qmluic, d, r)
     chk.cov["programs"] = len(items)
     chk.sample({"document": items[len(names) + 3][1], "qml": built[items[len(names) + 3][0]][0], "expected_places": exp[items[len(names) + 3][0]]["places"]["generate"]})
+    binding_map_leg(chk)
     chk.cov["trusted_base"] = ["expat + regex detectors in vlib/catalog.py", "TLC", "Pipeline.tla", "os.stat / sha1 for the output directory"]
